@@ -149,24 +149,18 @@ func (ex *Exec) instr(fr *Frame, in ssa.Instruction, st *State, pc *Term) *Term 
 		fr.defers = append(fr.defers, x)
 		st.extyp[k] = types.Typ[types.Bool]
 		st.extra[k] = True
-		ex.noteWrite("@extra:" + k)
+		ex.noteExtra(k)
 		// capture arguments at defer time
 		for i, a := range x.Call.Args {
 			ak := fmt.Sprintf("%s:arg%d", k, i)
 			st.extyp[ak] = a.Type()
 			st.extra[ak] = ex.val(fr, a)
-			ex.noteWrite("@extra:" + ak)
+			ex.noteExtra(ak)
 		}
-		if !x.Call.IsInvoke() {
-			if _, isB := x.Call.Value.(*ssa.Builtin); !isB {
-				ak := k + ":fn"
-				st.extyp[ak] = x.Call.Value.Type()
-				st.extra[ak] = ex.val(fr, x.Call.Value)
-			}
+		if _, isB := x.Call.Value.(*ssa.Builtin); isB {
+			fr.deferFns = append(fr.deferFns, nil)
 		} else {
-			ak := k + ":fn"
-			st.extyp[ak] = x.Call.Value.Type()
-			st.extra[ak] = ex.val(fr, x.Call.Value)
+			fr.deferFns = append(fr.deferFns, ex.val(fr, x.Call.Value))
 		}
 	case *ssa.RunDefers:
 		pc = ex.runDefers(fr, st, pc)
@@ -202,16 +196,16 @@ func (ex *Exec) instr(fr *Frame, in ssa.Instruction, st *State, pc *Term) *Term 
 	case *ssa.If:
 		c := ex.term(fr, x.Cond)
 		b := x.Block()
-		ex.setEdge(fr, b, 0, And(pc, c), st)
-		ex.setEdge(fr, b, 1, And(pc, Not(c)), st)
+		ex.setEdge(fr, b, 0, And(pc, c), st, And(fr.guard, c))
+		ex.setEdge(fr, b, 1, And(pc, Not(c)), st, And(fr.guard, Not(c)))
 	case *ssa.Jump:
-		ex.setEdge(fr, x.Block(), 0, pc, st)
+		ex.setEdge(fr, x.Block(), 0, pc, st, fr.guard)
 	case *ssa.Return:
 		var vals []Val
 		for _, r := range x.Results {
 			vals = append(vals, ex.val(fr, r))
 		}
-		fr.rets = append(fr.rets, retEdge{pc, st, vals})
+		fr.rets = append(fr.rets, retEdge{pc, st, vals, fr.guard})
 		if fr.root {
 			ex.checkPost(fr, x, st, pc, vals)
 		}
@@ -252,7 +246,7 @@ func (ex *Exec) zeroElems(st *State, et types.Type, r *Term) {
 	for _, l := range leaves(et) {
 		n, s := elemComp(et, l)
 		_, inner := arrParts(s)
-		ex.set(st, n, Store(ex.get(st, n, s), r, zeroOfSort(inner)))
+		ex.setAt(st, n, Store(ex.get(st, n, s), r, zeroOfSort(inner)), r)
 	}
 }
 
@@ -536,7 +530,7 @@ func (ex *Exec) convertVal(from, to types.Type, v Val, st *State) Val {
 				sv := v.(*SliceV)
 				r := ex.alloc(st, "bytes")
 				n, s := elemComp(sl.Elem(), leaf{"", BV(8)})
-				ex.set(st, n, Store(ex.get(st, n, s), r, Select(STR, sv.Arr)))
+				ex.setAt(st, n, Store(ex.get(st, n, s), r, Select(STR, sv.Arr)), r)
 				return &SliceV{Arr: r, Off: sv.Off, Len: sv.Len, Cap: sv.Len}
 			}
 		}
@@ -566,6 +560,8 @@ func (ex *Exec) typeAssert(fr *Frame, x *ssa.TypeAssert, st *State, pc **Term) V
 	} else {
 		ok = Eq(iv.Tag, typeTag(at))
 		res = unbox(at, iv.Data)
+		// the value inside an interface is a well-formed value that already exists
+		ex.pendingAssume = append(ex.pendingAssume, Implies(ok, ex.wfVal(at, res, st.now)))
 	}
 	if x.CommaOk {
 		zero := zeroVal(at)
@@ -678,9 +674,9 @@ func (ex *Exec) mapInit(st *State, t types.Type, r *Term) {
 		return
 	}
 	hs := ArrSort(SRef, ArrSort(ks, SBool))
-	ex.set(st, has, Store(ex.get(st, has, hs), r, ConstArr(ArrSort(ks, SBool), False)))
+	ex.setAt(st, has, Store(ex.get(st, has, hs), r, ConstArr(ArrSort(ks, SBool), False)), r)
 	ls := ArrSort(SRef, BV(64))
-	ex.set(st, ln, Store(ex.get(st, ln, ls), r, BVu(0, 64)))
+	ex.setAt(st, ln, Store(ex.get(st, ln, ls), r, BVu(0, 64)), r)
 }
 
 func (ex *Exec) lookup(fr *Frame, x *ssa.Lookup, st *State, pc **Term) Val {
@@ -736,13 +732,13 @@ func (ex *Exec) mapUpdate(fr *Frame, x *ssa.MapUpdate, st *State, pc **Term) {
 	hs := ArrSort(SRef, ArrSort(ks, SBool))
 	hc := ex.get(st, has, hs)
 	was := Select(Select(hc, m), k)
-	ex.set(st, has, Store(hc, m, Store(Select(hc, m), k, True)))
+	ex.setAt(st, has, Store(hc, m, Store(Select(hc, m), k, True)), m)
 	lc := ex.get(st, ln, ArrSort(SRef, BV(64)))
-	ex.set(st, ln, Store(lc, m, Ite(was, Select(lc, m), BVOp("bvadd", Select(lc, m), BVu(1, 64)))))
+	ex.setAt(st, ln, Store(lc, m, Ite(was, Select(lc, m), BVOp("bvadd", Select(lc, m), BVu(1, 64)))), m)
 	fs := flat(ex.val(fr, x.Value))
 	for i, l := range leaves(mt.Elem()) {
 		c := ex.get(st, vals[i], ArrSort(SRef, ArrSort(ks, l.sort)))
-		ex.set(st, vals[i], Store(c, m, Store(Select(c, m), k, fs[i])))
+		ex.setAt(st, vals[i], Store(c, m, Store(Select(c, m), k, fs[i])), m)
 	}
 }
 
